@@ -18,7 +18,7 @@ pub const GENEROUS_MS: u64 = 2000;
 pub const SHORT_MS: u64 = 150;
 /// slack granted to "promptly" / "once all workers are idle"
 pub const SLACK_MS: u64 = 400;
-const WATCHDOG: Duration = Duration::from_millis(3000);
+const WATCHDOG: Duration = Duration::from_millis(8000);
 
 pub enum Ev {
     Cp(Point, Release),
@@ -61,6 +61,9 @@ async fn handler(
 }
 
 pub struct Harness {
+    /// largest delay (µs) with which a sibling thread that sleeps 1 ms at a time was woken up
+    /// late since the last reset: how badly this process is being starved of CPU
+    sched_gap_us: Arc<std::sync::atomic::AtomicU64>,
     rt: tokio::runtime::Runtime,
     tx: Sender<Ev>,
     rx: Receiver<Ev>,
@@ -111,6 +114,8 @@ pub struct Outcome {
     pub diverged: Option<String>,
     pub timing_unsafe: bool,
     pub events: usize,
+    /// largest scheduling delay (ms) a 1 ms sleeper of this process saw during the execution
+    pub max_sched_gap_ms: f64,
     pub parked_fallbacks: usize,
     pub trace: Vec<String>,
 }
@@ -271,13 +276,24 @@ impl Harness {
                 }
             }
         });
-        Harness { rt, tx, rx, epoch: 0 }
+        let sched_gap_us = Arc::new(std::sync::atomic::AtomicU64::new(0));
+        let g = sched_gap_us.clone();
+        std::thread::spawn(move || {
+            loop {
+                let t = Instant::now();
+                std::thread::sleep(Duration::from_millis(1));
+                let late = t.elapsed().saturating_sub(Duration::from_millis(1)).as_micros() as u64;
+                g.fetch_max(late, std::sync::atomic::Ordering::Relaxed);
+            }
+        });
+        Harness { sched_gap_us, rt, tx, rx, epoch: 0 }
     }
 
     /// Execute `schedule` from a fresh server. Never panics on divergence: it is recorded.
     pub fn execute(&mut self, cfg: Cfg, schedule: &[Action]) -> Outcome {
         self.epoch += 1;
         let epoch = self.epoch;
+        self.sched_gap_us.store(0, std::sync::atomic::Ordering::Relaxed);
         // Stale events of a previous execution (none are expected).
         while let Ok(ev) = self.rx.try_recv() {
             if let Ev::Cp(p, _) = ev {
@@ -1013,6 +1029,7 @@ impl Run<'_> {
             diverged: self.diverged,
             timing_unsafe,
             events: self.events,
+            max_sched_gap_ms: self.h.sched_gap_us.load(std::sync::atomic::Ordering::Relaxed) as f64 / 1000.0,
             parked_fallbacks: self.pub_parked_fallbacks,
             trace: self.trace,
         }
